@@ -15,9 +15,10 @@
 package benchmath
 
 import (
+	"cmp"
 	"fmt"
 	"math"
-	"sort"
+	"slices"
 
 	"github.com/aclements/go-moremath/mathx"
 	"github.com/aclements/go-moremath/stats"
@@ -42,8 +43,23 @@ func NewSample(values []float64, t *Thresholds) *Sample {
 	// TODO: Analyze stationarity and put results in Warnings.
 	// Consider Augmented Dickey–Fuller (based on Maricq et al.)
 
-	// Sort values for fast order statistics.
-	sort.Float64s(values)
+	// Sort values for fast order statistics. Like sort.Float64s,
+	// this puts NaNs first, but it also orders -0 before +0
+	// (which compare equal) so that the sample, and everything
+	// derived from it, does not depend on the order in which the
+	// measurements arrived.
+	slices.SortFunc(values, func(a, b float64) int {
+		if c := cmp.Compare(a, b); c != 0 {
+			return c
+		}
+		switch sa, sb := math.Signbit(a), math.Signbit(b); {
+		case sa && !sb:
+			return -1
+		case !sa && sb:
+			return 1
+		}
+		return 0
+	})
 	return &Sample{values, t, nil}
 }
 
